@@ -93,3 +93,11 @@ Definition start (cache : option (list (str * list F))) (programs : list (list s
   mkCW cache (map (fun p => mkThread TIdle p []) programs).
 
 End Conc.
+
+(* The atomic decomposition implemented by [tstep] with [legacy = false], as a
+   sequence of accesses to the shared attribute (0 load, 1 store, 2 call compile):
+   getRules = TRead (load) ; [compile] ; TAssert (load) ; TLookup (load),
+   __compile__ = a single store of the locally built dict (TCompiled).
+   Compared with the bytecode of /repo on every run (Gen/RulerShape.v). *)
+Definition expected_getRules_shape : list Z := [0; 2; 0; 0].
+Definition expected_compile_shape : list Z := [1].
